@@ -260,7 +260,7 @@ def np_searchsorted(interp, st, fr, args, kw):
         st.assume(Forall([vs[0]], lambda q: band(compare('<=', 0, Sc(F(to_z3(q, 'int')))), compare('<=', Sc(F(to_z3(q, 'int'))), n)), name='searchsorted.range'))
         st.assume(Forall([vs[0], n], lambda q, k: implies(compare('<', k, Sc(F(to_z3(q, 'int')))), compare(lt, fn((k,)), vf((q,)))), name='searchsorted.below'))
         st.assume(Forall([vs[0], n], lambda q, k: implies(compare('>=', k, Sc(F(to_z3(q, 'int')))), compare(ge, fn((k,)), vf((q,)))), name='searchsorted.above'))
-        return PureArr((vs[0],), lambda idx: Sc(F(to_z3(idx[0], 'int'))), 'int')
+        return PureArr((vs[0],), lambda idx: Sc(F(to_z3(idx[0], 'int'))), 'nat')
     return one(v)
 
 
@@ -285,7 +285,7 @@ def np_argsort(interp, st, fr, args, kw):
     st.assume(Forall([n], lambda k: band(band(compare('<=', 0, oi(k)), compare('<', oi(k), n)), compare('==', o(oi(k)), k)), name='argsort.perm_inv'))
     if kind != 'str':
         st.assume(Forall([n, n], lambda a, b: implies(compare('<=', a, b), compare('<=', fn((o(a),)), fn((o(b),)))), name='argsort.sorted'))
-    res = PureArr((n,), lambda idx: o(idx[0]), 'int')
+    res = PureArr((n,), lambda idx: o(idx[0]), 'nat')
     res_meta = ('argsort', name, x)
     PERMS[name] = (O, Oinv, n)
     return res
@@ -316,7 +316,7 @@ def np_argmin(interp, st, fr, args, kw):
         st.assume(Forall([m], lambda i: band(compare('<=', 0, bb(i)), compare('<', bb(i), n)), name='argmin.range'))
         st.assume(Forall([m, n], lambda i, k: compare('<=', fn((i, bb(i))), fn((i, k))), name='argmin.min'))
         st.oblige('safe.argmin_nonempty', compare('>', n, 0), kind='safe')
-        return PureArr((m,), lambda idx: bb(idx[0]), 'int')
+        return PureArr((m,), lambda idx: bb(idx[0]), 'nat')
     raise Unsupported("argmin with this shape/axis")
 
 
